@@ -33,31 +33,31 @@ Fixpoint first_possible (cands possible : list string) : option string :=
 Definition selectLocation (prios possible : list string) (parent : string) : string :=
   match possible with
   | [x] => x
-  | _ => match first_possible (prios ++ [parent; internal_loc]) possible with
-         | Some p => p
-         | None => hd "" possible       (* possibleLocations[0]; URLFor never returns an empty list *)
-         end
+  | _ => if str_mem internal_loc possible then internal_loc
+         else match first_possible (prios ++ [parent; internal_loc]) possible with
+              | Some p => p
+              | None => hd "" possible       (* possibleLocations[0]; URLFor never returns an empty list *)
+              end
   end.
 
 (* ---- the rule of the property, stated on its own ---- *)
 
-(* [spec_loc prios possible parent l]: l offers the field; it is the first configured priority
-   that offers it; failing that the enclosing object's own service if it offers it; failing that
-   the gateway itself if the field is one of its own *)
+(* [spec_loc prios possible parent l]: l offers the field; the gateway's own fields are answered by
+   the gateway; otherwise l is the first configured priority that offers the field; failing that
+   the enclosing object's own service if it offers it *)
 Definition spec_loc (prios possible : list string) (parent l : string) : Prop :=
   In l possible /\
-  (forall p, first_possible prios possible = Some p -> l = p) /\
-  (first_possible prios possible = None -> In parent possible -> l = parent) /\
-  (first_possible prios possible = None -> ~ In parent possible -> In internal_loc possible -> l = internal_loc).
+  (In internal_loc possible -> l = internal_loc) /\
+  (~ In internal_loc possible -> forall p, first_possible prios possible = Some p -> l = p) /\
+  (~ In internal_loc possible -> first_possible prios possible = None -> In parent possible -> l = parent).
 
 Definition spec_locb (prios possible : list string) (parent l : string) : bool :=
   str_mem l possible &&
-  match first_possible prios possible with
-  | Some p => String.eqb l p
-  | None => if str_mem parent possible then String.eqb l parent
-            else if str_mem internal_loc possible then String.eqb l internal_loc
-            else true
-  end.
+  if str_mem internal_loc possible then String.eqb l internal_loc
+  else match first_possible prios possible with
+       | Some p => String.eqb l p
+       | None => if str_mem parent possible then String.eqb l parent else true
+       end.
 
 (* ---- which location every field of a selection ends up at ---- *)
 
